@@ -30,7 +30,16 @@ import Pycdlib.Model.Iso
 import Pycdlib.Model.DirBytes
 import Pycdlib.Model.PtBytes
 import Pycdlib.Model.Ranges
+import Pycdlib.Model.PtOrder
 namespace Pycdlib
+
+def parseKid (x : String) : Option (Nat × List Nat) :=
+  match x.splitOn ":" with
+  | [d, cs] => do pure ((← d.toNat?), (← (cs.splitOn ".").mapM (·.toNat?)))
+  | _ => none
+
+def parseKids (s : String) : Option (List (Nat × List Nat)) :=
+  if s = "-" then some [] else (s.splitOn ",").mapM parseKid
 
 def parseCps (s : String) : Option (List Nat) :=
   if s = "-" then some [] else (s.splitOn ",").mapM String.toNat?
@@ -180,6 +189,15 @@ def dispatchPure (toks : List String) : Option String :=
     match Reloc.relocMany name.toList (← k.toNat?) [] with
     | some l => pure (".".intercalate (l.map String.ofList))
     | none => pure "none"
+  | ["ptorder", root, kids] => do
+    -- directory hierarchy `d:c1.c2,d:c1` (sub-directories in recorded order): the path table as (directory, parent number)
+    let r ← root.toNat?
+    let m ← parseKids kids
+    let children : Nat → List Nat := fun d => match m.find? (fun e => e.1 == d) with
+      | some e => e.2
+      | none => []
+    let n := (m.map fun e => e.2.length).sum + 1
+    pure (",".intercalate ((PtOrder.table children n r).map fun e => s!"{e.1}:{e.2}"))
   | ["claims", ds] => do
     -- directories (first sector : sectors) in the order the walk meets them
     let l ← (ds.splitOn ",").mapM fun x =>
